@@ -47,7 +47,7 @@ def main():
     for x in a.also:
         prop, seed = x.split(":")
         todo.append((seed, prop))
-    res_path = os.path.join(VERIF, "seeded", "RESULTS.json")
+    res_path = os.environ.get("SEED_RESULTS") or os.path.join(VERIF, "seeded", "RESULTS.json")  # SEED_RESULTS: separate file for a concurrent run (merge afterwards)
     res = json.load(open(res_path)) if os.path.exists(res_path) else {}
     with concurrent.futures.ThreadPoolExecutor(a.par) as ex:
         for seed, prop, out in ex.map(lambda t: run(t[0], t[1], a.tier, a.jobs), todo):
